@@ -5,6 +5,7 @@ from typing import Any, Dict, List, Optional, Tuple
 import lib
 from lib import PropertyCheck, Violation, enc, dec, txt
 import c09_gen as G
+import c09_docs as D
 
 # ============================================================================================ segments
 STYLE_NAMES = ['str', 'py-prompt', 'py-more', 'py-keyword', 'py-builtin', 'py-comment', 'py-string', 'py-defname',
@@ -443,13 +444,78 @@ class Check(PropertyCheck):
             self.sample({'fields': c})
         return out
 
+    # ------------------------------------------------------------------ C. whole documents
+    def doc_cases(self, n: int, nplain: int) -> List[Dict[str, Any]]:
+        cases: List[Dict[str, Any]] = []
+        for _ in range(n):
+            # the same intended document in every format (blocks a format cannot express are regenerated for it)
+            seed = self.rng.randrange(1 << 30)
+            for fmt in D.FORMATS:
+                import random
+                doc = G.gen_doc(random.Random(seed), fmt)
+                cases.append({'doc': doc, 'fmt': fmt})
+        for _ in range(nplain):
+            cases.append({'plaintext': G.gen_plaintext(self.rng)})
+        for raw in ['', 'x', ' x ', '\n  a\n    b\n  c\n', 'a\n\n\nb', '<p>&amp;</p>', 'tab\there', '@param x: y', 'a\r\nb',
+                    '\u2028x', 'x\x0by', '   ', 'é' * 3, 'line\\\nnext']:
+            cases.append({'plaintext': raw})
+        return cases
+
+    @staticmethod
+    def doc_worker_case(c: Dict[str, Any]) -> Dict[str, Any]:
+        if 'plaintext' in c:
+            return {'docformat': 'plaintext', 'source': 'def f():\n    %r\n' % c['plaintext'], 'target': 'm.f', 'also': []}
+        doc, fmt = c['doc'], c['fmt']
+        src, tgt = G.source_for(doc, G.serialise(doc, fmt))
+        return {'docformat': fmt, 'source': src, 'target': tgt,
+                'also': [f[1] for f in doc['fields'] if f[0] in ('ivar', 'cvar', 'var')]}
+
+    @staticmethod
+    def doc_oracle(c: Dict[str, Any], o: Dict[str, Any]) -> Optional[Dict[str, Any]]:
+        if 'plaintext' in c:
+            return D.oracle_plaintext(c['plaintext'], o)
+        return D.oracle_doc(c['doc'], c['fmt'], o)
+
+    def check_docs(self, cases: List[Dict[str, Any]]) -> List[Violation]:
+        out: List[Violation] = []
+        obs = lib.run_impl_worker('c09_docs.py', [self.doc_worker_case(c) for c in cases], jobs=16)
+        per_class: Dict[str, int] = {}
+        nt = 0
+        for c, o in zip(cases, obs):
+            fmt = c.get('fmt', 'plaintext')
+            self.count('docs_' + fmt)
+            if 'doc' in c:
+                kinds = {b[0] for b in c['doc']['blocks']}
+                for k in kinds:
+                    self.count('docs_block_' + k)
+                self.count('docs_fields', len(c['doc']['fields']))
+                if len(kinds) >= 2 and c['doc']['fields']:
+                    nt += 1
+            if o.get('msgs'):
+                self.count('docs_with_warnings')
+            r = self.doc_oracle(c, o)
+            if r:
+                per_class[r['class']] = per_class.get(r['class'], 0) + 1
+                if per_class[r['class']] <= 3:
+                    out.append(Violation('oracle', '[%s] %s' % (fmt, r['what']), case={'document': c},
+                                         observed={'class': r['class'], 'html': (o.get('html') or '')[:3000], 'msgs': o.get('msgs')}))
+        for k, v in per_class.items():
+            self.stats['docs_oracle_' + k] = v
+        self.evaluations += len(cases)
+        self.nontrivial_docs = nt
+        self.sample({'document': {'fmt': cases[0].get('fmt'), 'docstring': G.serialise(cases[0]['doc'], cases[0]['fmt'])}}
+                    if 'doc' in cases[0] else {'document': cases[0]})
+        return out
+
     # ------------------------------------------------------------------ driver hooks
     def correspondence(self) -> List[Violation]:
         out: List[Violation] = []
+        quick = self.tier == 'quick'
         out += self.check_bodies(self.body_cases())
         out += self.check_fields(self.field_cases())
+        out += self.check_docs(self.doc_cases(600 if quick else 10000, 600 if quick else 10000))
         self.exhaustive = True
-        self.stats['distinct_nontrivial'] = self.nontrivial_bodies + self.nontrivial_fields
+        self.stats['distinct_nontrivial'] = self.nontrivial_bodies + self.nontrivial_fields + self.nontrivial_docs
         return out
 
     def search(self, broken: List[Violation]) -> List[Violation]:
@@ -503,5 +569,20 @@ class Check(PropertyCheck):
             if not fs:
                 print('property: holds on this input')
             return 1 if bad else 0
+        if 'document' in case:
+            c = case['document']
+            w = self.doc_worker_case(c)
+            o = lib.run_impl_worker('c09_docs.py', [w])[0]
+            r = self.doc_oracle(c, o)
+            print('docformat:', w['docformat'])
+            print('source   :'); print(w['source'])
+            print('rendered :', o.get('html')); print('warnings :', o.get('msgs'), o.get('exc') or '')
+            known, _ = lib.load_known_findings(self.id)
+            if r:
+                k = self.classify_known(Violation('oracle', r['what'], case=case, observed=r), known)
+                print('property :', r['what'], '[KNOWN: %s]' % k['id'] if k else '')
+            else:
+                print('property : holds on this input')
+            return 1 if r else 0
         print('nothing to replay for', list(case))
         return 2
